@@ -588,24 +588,40 @@ impl Python {
         writeln!(w, "class {class_name}(BaseModel):")?;
         self.write_comments(w, true, comments, 1)?;
 
-        writeln!(w, "    {tag_key}: Literal[{tag_value}] = {tag_value}",)?;
-        if content_type.is_none() && content_value.is_none() {
+        // A serde tag or content key may be a Python keyword (`class`, `from`, ...):
+        // like struct fields, such a key gets a trailing underscore and an alias.
+        let tag_attr = python_keyword_aware_attribute(tag_key);
+        let content_attr = python_keyword_aware_attribute(content_key);
+        let has_content = content_type.is_some() || content_value.is_some();
+        if tag_attr != tag_key || (has_content && content_attr != content_key) {
+            self.add_import("pydantic".to_string(), "ConfigDict".to_string());
+            self.add_import("pydantic".to_string(), "Field".to_string());
+            writeln!(w, "    model_config = ConfigDict(populate_by_name=True)\n")?;
+        }
+
+        if tag_attr != tag_key {
+            writeln!(
+                w,
+                "    {tag_attr}: Literal[{tag_value}] = Field(default={tag_value}, alias=\"{tag_key}\")",
+            )?;
+        } else {
+            writeln!(w, "    {tag_key}: Literal[{tag_value}] = {tag_value}",)?;
+        }
+        if !has_content {
             return Ok(());
         }
-        writeln!(
-            w,
-            "    {content_key}{}{}",
-            if let Some(content_type) = content_type {
-                format!(": {}", content_type)
-            } else {
-                "".to_string()
-            },
-            if let Some(content_value) = content_value {
-                format!(" = {}", content_value)
-            } else {
-                "".to_string()
+        let content_annotation = content_type
+            .map(|content_type| format!(": {}", content_type))
+            .unwrap_or_default();
+        let content_assignment = match (content_attr != content_key, content_value) {
+            (false, Some(content_value)) => format!(" = {}", content_value),
+            (false, None) => String::new(),
+            (true, Some(content_value)) => {
+                format!(" = Field(default={content_value}, alias=\"{content_key}\")")
             }
-        )?;
+            (true, None) => format!(" = Field(alias=\"{content_key}\")"),
+        };
+        writeln!(w, "    {content_attr}{content_annotation}{content_assignment}")?;
         Ok(())
     }
     fn write_algebraic_enum(
@@ -740,6 +756,14 @@ fn get_python_keywords() -> &'static HashSet<String> {
             .map(|v| v.to_string()),
         )
     })
+}
+
+/// Attribute name for a serde tag / content key: the key itself unless it is a keyword.
+fn python_keyword_aware_attribute(key: &str) -> String {
+    match get_python_keywords().contains(key) {
+        true => format!("{}_", key),
+        false => key.to_string(),
+    }
 }
 
 fn python_property_aware_rename(name: &str) -> String {
